@@ -187,12 +187,28 @@ package types
 //@   ensures result == nil <==> (g.State != GroupClosed && g.State != GroupOpen)
 
 // ---- escrow ids (C05): a deployment's escrow account is ("deployment", text form of the id) ----
-//@ spec depXID(id: DeploymentID): str
+//@ spec opaque depXID(id: DeploymentID): str = id.Owner + "/" + itoa(id.DSeq)
 //@ func (DeploymentID).String
 //@   trusted
 //@   ensures result == depXID(id)
 //@ func EscrowAccountForDeployment
 //@   ensures result.Scope == "deployment" && result.XID == depXID(id)
+// owners are stored in canonical bech32 form (what AccAddress.String() prints): ids are compared and keyed as text
+//@ spec canonicalAddr(s: str): bool = validBech32(s) && bech32(unbech32(s)) == s
+//@ axiom bech32NoSlash: forall s: str :: validBech32(s) ==> !contains(s, "/")
+//@   trigger validBech32(s)
+//@ func ParseDeploymentPath
+//@   ensures [ok] len(parts) == 2 && validBech32(parts[0]) && isDec(parts[1]) && atoi(parts[1]) < 18446744073709551616 ==>
+//@        result1 == nil && result0.Owner == bech32(unbech32(parts[0])) && result0.DSeq == atoi(parts[1])
+//@   ensures [bad] !(len(parts) == 2 && validBech32(parts[0]) && isDec(parts[1]) && atoi(parts[1]) < 18446744073709551616) ==> result1 != nil
+//@ func ParseDeploymentID
+//@   ensures [ok] splitCount(val, "/") == 2 && validBech32(splitPart(val, "/", 0)) && isDec(splitPart(val, "/", 1)) && atoi(splitPart(val, "/", 1)) < 18446744073709551616 ==>
+//@        result1 == nil && result0.Owner == bech32(unbech32(splitPart(val, "/", 0))) && result0.DSeq == atoi(splitPart(val, "/", 1))
+//@   ensures [bad] !(splitCount(val, "/") == 2 && validBech32(splitPart(val, "/", 0)) && isDec(splitPart(val, "/", 1)) && atoi(splitPart(val, "/", 1)) < 18446744073709551616) ==> result1 != nil
+// the escrow account of a deployment leads back to exactly that deployment
+//@ func DeploymentIDFromEscrowAccount
+//@   ensures [scope] id.Scope != "deployment" ==> !result1
+//@   ensures [roundtrip] forall d: DeploymentID :: id.Scope == "deployment" && id.XID == depXID(d) && canonicalAddr(d.Owner) ==> result1 && result0 == d
 
 // ---- events (signature = abstract identity of the typed event; byte-level form under C16) ----
 //@ spec sigDeployment(kind: int, id: DeploymentID): str
@@ -228,6 +244,7 @@ package types
 //@   trusted
 //@   ensures evSig(result) == sigGroup(3, ev.ID)
 
+//@ property C05 := EscrowAccountForDeployment#*, ParseDeploymentPath#*, ParseDeploymentID#*, DeploymentIDFromEscrowAccount#*
 //@ property C04 := EscrowAccountForDeployment#*, (Deployment).ID#*, (Group).ID#*, (GroupID).DeploymentID#*, MakeGroupID#*, (DeploymentID).Equals#*, (GroupID).Equals#*,
 //@                 (Group).ValidateClosable#*, (Group).ValidatePausable#*, (Group).ValidateStartable#*,
 //@                 NewEventDeploymentCreated#*, NewEventDeploymentUpdated#*, NewEventDeploymentClosed#*, NewEventGroupClosed#*, NewEventGroupPaused#*, NewEventGroupStarted#*
